@@ -519,6 +519,24 @@ pub fn api_view_mismatch(m: &Memfs, t: &Tree) -> Option<String> {
             if m.is_symlink(p) != (n.kind() == Kind::Link) {
                 return Some(format!("is_symlink({:?}) disagrees with stored kind", p));
             }
+            // methods that state the same fact agree with each other
+            if m.is_file(p) != (n.kind() == Kind::File) || m.is_dir(p) != (n.kind() == Kind::Dir) {
+                return Some(format!("is_file/is_dir({:?}) = {}/{} for a stored {:?}", p, m.is_file(p), m.is_dir(p), n.kind()));
+            }
+            if m.uid(p).ok() != Some(n.owner().0) || m.gid(p).ok() != Some(n.owner().1) {
+                return Some(format!("uid/gid({:?}) = {:?}/{:?} but owner is {:?}", p, m.uid(p).ok(), m.gid(p).ok(), n.owner()));
+            }
+            if n.kind() != Kind::Link && (m.is_exec(p) != (n.mode() & 0o111 != 0) || m.is_readonly(p) != (n.mode() & 0o222 == 0)) {
+                return Some(format!("is_exec/is_readonly({:?}) = {}/{} with mode {:o}", p, m.is_exec(p), m.is_readonly(p), n.mode()));
+            }
+            match m.entry(p) {
+                Ok(e) => {
+                    if ps(e.path_buf()) != *p || e.is_symlink() != (n.kind() == Kind::Link) || e.mode() != n.mode() || (n.kind() != Kind::Link && (e.is_dir() != (n.kind() == Kind::Dir) || e.is_file() != (n.kind() == Kind::File))) {
+                        return Some(format!("entry({:?}) = {:?} disagrees with the stored {:?} (mode {:o})", p, entry_info(&e), n.kind(), n.mode()));
+                    }
+                },
+                Err(e) => return Some(format!("entry({:?}) = Err({}) for a stored entry", p, e)),
+            }
             match n {
                 Node::File { data, .. } => {
                     let mut buf = vec![];
@@ -526,17 +544,53 @@ pub fn api_view_mismatch(m: &Memfs, t: &Tree) -> Option<String> {
                         Ok(Ok(_)) if buf == *data => {},
                         _ => return Some(format!("read({:?}) disagrees with stored bytes", p)),
                     }
+                    match (String::from_utf8(data.clone()), m.read_all(p)) {
+                        (Ok(s), Ok(r)) if s == r => {},
+                        (Err(_), Err(_)) => {},
+                        (a, b) => return Some(format!("read_all({:?}) = {:?} but the bytes are {:?}", p, b.map_err(|e| e.to_string()), a.map_err(|_| "not utf-8"))),
+                    }
                 },
-                Node::Link { target, .. } => match m.readlink_abs(p) {
-                    Ok(x) if ps(x.clone()) == *target => {},
-                    _ => return Some(format!("readlink_abs({:?}) disagrees with stored target", p)),
+                Node::Link { target, rel, to_dir, .. } => {
+                    match m.readlink_abs(p) {
+                        Ok(x) if ps(x.clone()) == *target => {},
+                        _ => return Some(format!("readlink_abs({:?}) disagrees with stored target", p)),
+                    }
+                    match m.readlink(p) {
+                        Ok(x) if ps(x.clone()) == *rel => {},
+                        other => return Some(format!("readlink({:?}) = {:?} but the stored relative target is {:?}", p, other.map_err(|e| e.to_string()), rel)),
+                    }
+                    if m.is_symlink_dir(p) != *to_dir || m.is_symlink_file(p) == *to_dir {
+                        return Some(format!("is_symlink_dir/is_symlink_file({:?}) = {}/{} but the stored flag says dir={}", p, m.is_symlink_dir(p), m.is_symlink_file(p), to_dir));
+                    }
                 },
-                Node::Dir { .. } => {},
+                Node::Dir { .. } => {
+                    // paths == children; dirs and files partition them
+                    let kids = t.children(p);
+                    let list = |r: RvResult<Vec<std::path::PathBuf>>| -> Option<Vec<String>> { r.ok().map(|v| v.into_iter().map(ps).collect()) };
+                    let (pa, di, fi) = (list(m.paths(p)), list(m.dirs(p)), list(m.files(p)));
+                    match (&pa, &di, &fi) {
+                        (Some(pa), Some(di), Some(fi)) => {
+                            let mut k2 = kids.clone();
+                            k2.sort();
+                            let mut both: Vec<String> = di.iter().chain(fi.iter()).cloned().collect();
+                            both.sort();
+                            let mut pa2 = pa.clone();
+                            pa2.sort();
+                            if pa2 != k2 || both != k2 {
+                                return Some(format!("paths/dirs/files({:?}) = {:?} / {:?} / {:?} but the directory holds {:?}", p, pa, di, fi, k2));
+                            }
+                        },
+                        _ => return Some(format!("paths/dirs/files({:?}) failed on a stored directory", p)),
+                    }
+                },
             }
         }
         match m.cwd() {
             Ok(c) if ps(c.clone()) == t.cwd => {},
             _ => return Some("cwd() disagrees with stored cwd".into()),
+        }
+        if m.abs(".").ok().map(ps) != Some(t.cwd.clone()) {
+            return Some(format!("abs(\".\") = {:?} but cwd is {:?}", m.abs(".").ok(), t.cwd));
         }
         None
     });
